@@ -90,6 +90,7 @@ type srvState struct {
 	cbMu     sync.Mutex
 	cbs      []string
 	base     int
+	lastComp time.Time // wall-clock instant up to which real elapsed time has been taken out of the table's time stamps
 	started  int64
 	returned int64
 	resMu    sync.Mutex
@@ -270,7 +271,20 @@ func startServer(c *srvCase) *srvState {
 	}
 	time.Sleep(200 * time.Microsecond)
 	st.base = runtime.NumGoroutine()
+	st.lastComp = time.Now()
 	return st
+}
+
+// The table's time stamps are wall-clock readings; the history's clock is virtual (`adv` events age
+// them through a hook). The wall-clock time that passes while a history runs (milliseconds usually,
+// seconds on a loaded machine) is taken out again before and after every event, so that the ages the
+// code computes are those of the virtual clock and do not depend on how fast the machine is. Stamps
+// written since the last call end up at "now" (the hook clamps), i.e. at the end of their event.
+func (st *srvState) compensate() {
+	t := time.Now()
+	st.s.VerifAge(-t.Sub(st.lastComp))
+	bep44.VerifAge(st.mem, -t.Sub(st.lastComp))
+	st.lastComp = t
 }
 
 func (st *srvState) snapshot() ([]dht.VerifNode, string) {
@@ -319,7 +333,7 @@ func (st *srvState) exec(ei int, e *sev) {
 	}
 	preSnap := st.prevSnap
 	var prePending [][2]string
-	guard("VerifPending", fmt.Sprintf("case=%d ev=%d scenario=%s", c.idx, ei, c.cfg.scenario), func() { prePending = st.s.VerifPending() })
+	guard("VerifPending", fmt.Sprintf("case=%d ev=%d scenario=%s", c.idx, ei, c.cfg.scenario), func() { st.compensate(); prePending = st.s.VerifPending() })
 	var lhs string
 	blockedSrc := false
 	var inMsg *krpc.Msg
@@ -503,7 +517,7 @@ func (st *srvState) exec(ei int, e *sev) {
 	var snapStr string
 	var pend [][2]string
 	gctx := fmt.Sprintf("case=%d ev=%d scenario=%s [%s]", c.idx, ei, c.cfg.scenario, lhs)
-	guard("table-snapshot", gctx, func() { snap, snapStr = st.snapshot(); pend = st.s.VerifPending() })
+	guard("table-snapshot", gctx, func() { st.compensate(); snap, snapStr = st.snapshot(); pend = st.s.VerifPending() })
 	st.prevSnap = snap
 	var pp []string
 	for _, p := range pend {
